@@ -201,3 +201,87 @@ def validate(pattern, zre, samples, full=False):
                 raise AssertionError('translator disagrees with re on %r for %s: re=%r z3=%r' % (smp, rx.pattern[:40], want, got2))
         n += 1
     return n
+
+
+# ---------------------------------------------------------------------------------------------
+# termination of the backtracking matcher: ambiguity of unbounded repetitions
+#
+# `re` explores the factorisations of the input into iterations of a repeated group one after
+# the other.  If some word has two different factorisations into words of the body X, then its
+# n-th power has 2^n of them, and an input that makes the match fail after the loop forces the
+# matcher through all of them: the match does not finish.  X* is ambiguous exactly when
+#     exists a, e, r:  a in X,  a.e in X,  e != "",  r in X*,  e.r in X*
+# (look at the first iteration where two factorisations differ).  `unsat` = no such word: the
+# repetition is unambiguous, backtracking over it is linear in the number of iterations.
+
+def _cat(a, b):
+    return b if a is None else z3.Concat(a, b)
+
+
+def repeats(pattern, flags=0):
+    """-> [(path, prefix_regex or None, body_regex, alternatives)] for every unbounded repetition in the pattern"""
+    _STRICT_END[0] = False
+    if isinstance(pattern, re.Pattern):
+        flags = pattern.flags
+        pattern = pattern.pattern
+    tree = sp.parse(pattern, flags)
+    out = []
+
+    def walk(seq, prefix, path):
+        items = list(seq)
+        for i, (op, av) in enumerate(items):
+            if op is sc.MAX_REPEAT or op is sc.MIN_REPEAT:
+                lo, hi, sub = av
+                if hi is sc.MAXREPEAT or hi > 64:
+                    alts = []
+                    inner = list(sub)
+                    while len(inner) == 1 and inner[0][0] is sc.SUBPATTERN:
+                        inner = list(inner[0][1][3])
+                    if len(inner) == 1 and inner[0][0] is sc.BRANCH:
+                        alts = [_seq(a, False) for a in inner[0][1][1]]
+                    out.append((path + '/%d' % i, prefix, _seq(sub, False), alts))
+                walk(sub, prefix, path + '/%d*' % i)
+            elif op is sc.SUBPATTERN:
+                walk(av[3], prefix, path + '/%d(' % i)
+            elif op is sc.BRANCH:
+                for k, alt in enumerate(av[1]):
+                    walk(alt, prefix, path + '/%d|%d' % (i, k))
+            prefix = _cat(prefix, _one(op, av, True))
+    walk(tree, None, '')
+    return out
+
+
+def ambiguous_repeat(prefix, body, alts, timeout_ms=20000):
+    """-> (status, (prefix word, ambiguous word) or None, seconds)"""
+    a, e, r, p = z3.String('a'), z3.String('e'), z3.String('r'), z3.String('p')
+    star = z3.Star(body)
+    cons = [z3.InRe(a, body), z3.InRe(z3.Concat(a, e), body), z3.Length(e) > 0, z3.InRe(r, star), z3.InRe(z3.Concat(e, r), star)]
+    if prefix is not None:
+        cons.append(z3.InRe(p, prefix))
+    else:
+        cons.append(p == z3.StringVal(''))
+    t0 = time.time()
+    worst = 'unsat'
+    queries = [cons]
+    for i in range(len(alts)):
+        for j in range(i + 1, len(alts)):
+            queries.append([z3.InRe(a, alts[i]), z3.InRe(a, alts[j]), z3.Length(a) > 0, e == z3.StringVal(''), r == z3.StringVal(''), cons[-1]])
+    n = 0
+    for q in queries:
+        s = z3.Solver()
+        s.set('timeout', timeout_ms)
+        s.add(*q)
+        res = str(s.check())
+        n += 1
+        if res == 'sat':
+            m = s.model()
+            g = lambda v: z3str_to_py(m.eval(v, model_completion=True).as_string())
+            return 'sat', (g(p), g(a) + g(e) + g(r)), time.time() - t0, n
+        if res == 'unsat':
+            so = second_opinion(s)
+            n += 1
+            if so == 'sat':
+                worst = 'unknown'
+        else:
+            worst = 'unknown'
+    return worst, None, time.time() - t0, n
